@@ -81,7 +81,7 @@ CLAIMED = {
     "C11": ("DESIGN.md §4 C11",
             "Seeded search over interleavings of controller status commands (segmented input, several units per message) and firmware register / "
             "error-queue calls, including firmware calls placed inside running handlers; the invariant STB == summary(registers, queue) is evaluated "
-            "from SCPI_RegGet/SCPI_ErrorCount after every API call, handler, unit and input call (not inside callbacks, where the outer call is still under way); deployments without error/control/reset callback or without any interface, SRQ and error callbacks that fail, push errors or write registers themselves; default build and the build with 36 user register groups, where the status byte has one more summary bit behind it (a group without enable register). Exploration: a clean batch is evidence, not proof.",
+            "from SCPI_RegGet/SCPI_ErrorCount after every API call, handler, unit and input call (not inside callbacks, where the outer call is still under way); deployments without error/control/reset callback or without any interface, SRQ and error callbacks that fail, push errors or write registers themselves; default build and the build with 37 user register groups, where the status byte has one more summary bit behind it (a group without enable register). Exploration: a clean batch is evidence, not proof.",
             "Trusts the harness observers and that every legal interleaving is an order of whole API calls (library is documented non-reentrant). "
             "Direct writes to STB summary bits are outside the history alphabet and not generated.",
             "deterministic simulation: seeded cooperative scheduler over controller/firmware actors, state invariant checked after every event"),
